@@ -176,7 +176,48 @@ func c04Scenario(rng *rand.Rand) *prodScenario {
 // c16DelayedRetry: only Flush.Frequency is configured, the cluster answers more slowly than the
 // frequency, one of the first requests is refused with a retriable code, and messages for the same and
 // for other partitions keep arriving meanwhile. Then the input stops: everything must still be flushed.
+// c16RefusalThenBurst: a long Flush.Frequency and a low Producer.MaxMessageBytes. The first request
+// (partition 0 only) is refused with a retriable code while the next buffer already holds messages of
+// partitions 0 and 1; partition 0 is dropped from that buffer, partition 1 keeps it alive until its
+// timer fires, and meanwhile the retried and many new messages for partition 0 arrive in it: the batch
+// limit has to hold in the buffer that outlives a partial refusal, too.
+func c16RefusalThenBurst(rng *rand.Rand) *prodScenario {
+	sc := &prodScenario{Topics: []string{"t"}, Partitioner: "manual", CloseMode: "close", ChannelBuf: -1, Acks: sarama.WaitForLocal, RetryMax: 3, Brokers: 1}
+	sc.Parts = 2
+	sc.Version = []sarama.KafkaVersion{sarama.V0_10_0_0, sarama.V0_11_0_0, sarama.V2_1_0_0}[rng.Intn(3)]
+	sc.MaxMessageBytes = 1000
+	sc.MaxRequestSize = 256 << 10
+	sc.FlushFreq = 250 * time.Millisecond
+	sc.ProduceDelayMs = 30
+	sc.ReadTimeout = 500 * time.Millisecond // no transport time-outs: every request is answered once
+	sc.Faults = []int{fRetryNoAppend}
+	sc.FaultCodes = []sarama.KError{pickCode(fRetryNoAppend, rng)}
+	burst := 14 + rng.Intn(12)
+	parts := []int32{0, 0, 0, 1, 0} // the last look at the second buffer before the refusal is for partition 0
+	pauses := []int{0, 0, 260000, 1000, 1000}
+	for i := 0; i < burst; i++ {
+		parts = append(parts, 0)
+		if i == 0 {
+			pauses = append(pauses, 45000)
+		} else {
+			pauses = append(pauses, 500+rng.Intn(1000))
+		}
+	}
+	for i := range parts {
+		ms := &msgSpec{ID: i, Topic: "t", Part: parts[i], KeyNil: true, PauseUs: pauses[i]}
+		ms.Value = append([]byte(fmt.Sprintf("%d:", i)), randBytes(rng, 80+rng.Intn(40))...)
+		sc.Msgs = append(sc.Msgs, ms)
+	}
+	sc.Submitters = 1
+	sc.StopInputEarly = true
+	sc.ExpectAtCluster = len(sc.Msgs)
+	return sc
+}
+
 func c16DelayedRetry(rng *rand.Rand) *prodScenario {
+	if rng.Intn(3) == 0 {
+		return c16RefusalThenBurst(rng)
+	}
 	sc := &prodScenario{Topics: []string{"t"}, Partitioner: "manual", CloseMode: "close", ChannelBuf: -1, Acks: sarama.WaitForLocal, RetryMax: 3, Brokers: 1}
 	sc.Parts = 2 + rng.Intn(2)
 	sc.Version = []sarama.KafkaVersion{sarama.V0_10_0_0, sarama.V0_11_0_0, sarama.V2_1_0_0}[rng.Intn(3)]
